@@ -1011,9 +1011,27 @@ def c11(M, ctx):
             if not newly:
                 continue
             for hi in active:
-                if hi == lo or tspec(M, hi).get("nf") or tspec(M, lo).get("nf"):
+                if hi == lo or tspec(M, lo).get("nf"):
                     continue
                 if not rule_key(M, rule, U, hi, t) < rule_key(M, rule, U, lo, t):
+                    continue
+                if tspec(M, hi).get("nf"):
+                    # the higher-ranking task needs a worker-facility pair: it was passed over if its (single-task) component stayed
+                    # at a workplace that had a facility which was free before and after the pass, fits the task and can be operated
+                    # by the worker that went to the lower-ranking task
+                    ci = tspec(M, hi).get("comp")
+                    if ci is None or sum(1 for x in M.spec["tasks"] if x.get("comp") == ci) != 1:
+                        continue
+                    pl = A["cplaced"][ci]
+                    if pl is None:
+                        continue  # (a single-task component is only ever placed while its own task is being served, i.e. before `lo` was)
+                    for w in newly:
+                        for f in range(len(M.facs)):
+                            if (M.fwp[f] == pl and A["fstate"][f] == W_FREE and U["fstate"][f] == W_FREE and not A["fassign"][f] and eligible_facility(M, f, hi)
+                                    and can_operate(M, w, f) and eligible_worker(M, w, hi) and can_accept_pair(M, A, hi, w, f)):
+                                ctx.fail("C11:allocation-inverts-priority:facility-task-passed-over")
+                                ctx.notes.setdefault("inversion", "step %d: worker %d given to task %d although facility task %d ranks higher under rule %d and facility %d was free" % (t, w, lo, hi, rule, f))
+                    ctx.cover("c11:strict-priority-pair-facility-task")
                     continue
                 ctx.cover("c11:strict-priority-pair")
                 for w in newly:
